@@ -173,10 +173,12 @@ theorem load_no_defaulting (axesOk : List Int → Bool) (m : Members α) (y : Ar
 /-- **load_accepted_wf.** Whatever member map `load_npz` accepts — any member map, written by `save_npz` or
 not — the array it returns satisfies the structural invariant of its format: every extent is non-negative;
 for COO there is one coordinate row per dimension and one value per coordinate column (every rank, 0-d
-included); for GCXS there is one value per stored index (one dimension and up) and, with two dimensions and
-up, `compressed_axes` is a non-empty admissible list of in-range axes that does not name every dimension,
-`len(indptr)` is the number of compressed rows plus one, `indptr[0] = 0` and `indptr[-1] = len(indices)`.
-So a file whose members are inconsistent in any of these respects is rejected, never loaded.
+included); for GCXS — the full invariant of a compressed-row layout except order and uniqueness of the indices
+within a row — there is one value per stored index (one dimension and up), with one dimension every index is a
+position of the array, and with two dimensions and up `compressed_axes` is a non-empty admissible list of in-range
+axes that does not name every dimension, `len(indptr)` is the number of compressed rows plus one, `indptr[0] = 0`,
+`indptr[-1] = len(indices)`, `indptr` never decreases, and every index lies in `[0, product of the uncompressed
+extents)`.  So a file whose members are inconsistent in any of these respects is rejected, never loaded.
 (`hm`: the `coords` member NumPy hands over is a genuine 2-d array.) -/
 theorem load_accepted_wf (axesOk : List Int → Bool) (m : Members α) (y : Arr α)
     (hm : ∀ c, lookup m "coords" = some (.mat c) → c.WF) (h : load axesOk m = .ok y) : y.WF axesOk := by
@@ -216,6 +218,65 @@ theorem load_accepted_roundtrips (axesOk : List Int → Bool) (m : Members α) (
   have := npz_roundtrip_partial axesOk y hwf hex
   rwa [hn] at this
 
+/-- **gcxs_member_damage_confined.** Take the file of any well-formed GCXS array of two or more dimensions and
+replace ONE of the members `data`, `indices`, `indptr` by anything at all (no assumption on the container, the
+checksum included).  If `load_npz` accepts the result, the array it returns has the original shape, compressed
+axes, fill value and the two untouched members, the replaced member is what the file now holds, and the triple
+satisfies the structural invariant `GcxsStruct` again: the damage cannot spread to anything else, and it cannot
+produce an inconsistent array. -/
+theorem gcxs_member_damage_confined (axesOk : List Int → Bool) (e : Bool) (s : List Int) (d : List α)
+    (i p l : List Int) (f : α) (hwf : (Arr.gcxs e s d i p (some l) f).WF axesOk)
+    (hex : ¬ Excluded (Arr.gcxs e s d i p (some l) f))
+    (m : Members α) (hs : save (Arr.gcxs e s d i p (some l) f) = .ok m) (m' : Members α) (k : String)
+    (hk : k = "data" ∨ k = "indices" ∨ k = "indptr")
+    (hsame : ∀ k' ∈ vocabulary, k' ≠ k → lookup m' k' = lookup m k')
+    (y : Arr α) (hload : load axesOk m' = .ok y) :
+    ∃ d' i' p', y = .gcxs true s d' i' p' (some l) f
+      ∧ lookup m' "data" = some (.vals d') ∧ lookup m' "indices" = some (.ints i') ∧ lookup m' "indptr" = some (.ints p')
+      ∧ (k ≠ "data" → d' = d) ∧ (k ≠ "indices" → i' = i) ∧ (k ≠ "indptr" → p' = p)
+      ∧ GcxsStruct s d' i' p' (some l) := by
+  have hcls : e = true ∨ gcxsExactTest = false := by
+    cases e
+    · right
+      cases hg : gcxsExactTest
+      · rfl
+      · exact absurd (Or.inl ⟨rfl, hg⟩) hex
+    · left; rfl
+  have hw := writeList_gcxs e s d i p (some l) f hcls
+  simp [save, hw, collect, Arr.attr, encAxes] at hs
+  subst hs
+  obtain ⟨_, _, hl0, _, hl2, _, _⟩ := hwf
+  have hnocoords : lookup m' "coords" = none := by
+    rw [hsame "coords" (by decide) (by rcases hk with h | h | h <;> subst h <;> decide)]; simp [lookup]
+  have hwf' := load_accepted_wf axesOk m' y (fun c hc => by rw [hnocoords] at hc; exact absurd hc (by simp)) hload
+  obtain ⟨b, hb, hbc, hall, hff⟩ := load_no_defaulting axesOk m' y hload
+  cases y with
+  | coo s' c' d' f' =>
+    obtain ⟨_, _, _, c0, hc0, _⟩ := hff
+    rw [hnocoords] at hc0; exact absurd hc0 (by simp)
+  | gcxs e' s' d' i' p' ca' f' =>
+    obtain ⟨he', hms, hmd, hmf, hmi, hmp, la, hma, hca'⟩ := hff
+    obtain ⟨_, hst', _⟩ := hwf'
+    have hk1 : "shape" ≠ k := by rcases hk with h | h | h <;> subst h <;> decide
+    have hk2 : "compressed_axes" ≠ k := by rcases hk with h | h | h <;> subst h <;> decide
+    have hk3 : "fill_value" ≠ k := by rcases hk with h | h | h <;> subst h <;> decide
+    rw [hsame "shape" (by decide) hk1] at hms
+    rw [hsame "compressed_axes" (by decide) hk2] at hma
+    rw [hsame "fill_value" (by decide) hk3] at hmf
+    simp [lookup] at hms hma hmf
+    subst hms; subst hma; subst hmf; subst he'
+    have hdec : decodeAxes l = some l := by simp [decodeAxes, hl0]
+    have hna : normAxes s (some l) = some l := by simp [normAxes, hl2]
+    rw [hdec, hna] at hca'
+    subst hca'
+    refine ⟨d', i', p', rfl, hmd, hmi, hmp, fun h => ?_, fun h => ?_, fun h => ?_, hst'⟩
+    · rw [hsame "data" (by decide) (Ne.symm h)] at hmd
+      simp [lookup] at hmd; exact hmd.symm
+    · rw [hsame "indices" (by decide) (Ne.symm h)] at hmi
+      simp [lookup] at hmi; exact hmi.symm
+    · rw [hsame "indptr" (by decide) (Ne.symm h)] at hmp
+      simp [lookup] at hmp; exact hmp.symm
+
 /-- **gcxs_count_damage_rejected.** Take the file of any well-formed GCXS array of two or more dimensions and
 replace ONE of the members `data`, `indices`, `indptr` by anything with a different number of entries (what a
 damaged `shape` field in that member's npy header produces; no assumption on the container, the checksum
@@ -233,6 +294,8 @@ theorem gcxs_count_damage_rejected (axesOk : List Int → Bool) (e : Bool) (s : 
   | error err => exact ⟨err, rfl⟩
   | ok y =>
     exfalso
+    obtain ⟨d', i', p', _, hmd, hmi, hmp, hd, hi, hp, hst1', _, hst2'⟩ :=
+      gcxs_member_damage_confined axesOk e s d i p l f hwf hex m hs m' k hk hsame y hload
     have hcls : e = true ∨ gcxsExactTest = false := by
       cases e
       · right
@@ -243,70 +306,70 @@ theorem gcxs_count_damage_rejected (axesOk : List Int → Bool) (e : Bool) (s : 
     have hw := writeList_gcxs e s d i p (some l) f hcls
     simp [save, hw, collect, Arr.attr, encAxes] at hs
     subst hs
-    obtain ⟨hnn, ⟨hst1, hst2⟩, hl0, hl1, hl2, hl3, hl4⟩ := hwf
+    obtain ⟨_, ⟨hst1, _, hst2⟩, hl0, _, hl2, _, hl4⟩ := hwf
     have hs2 : 2 ≤ s.length := wf_axes_two_dims hl0 hl2 hl4
     have hsne : s ≠ [] := by intro h0; subst h0; simp at hs2
-    obtain ⟨l0, hl0', hp1, _, _⟩ := hst2 hs2
-    simp only [Option.some.injEq] at hl0'
-    subst hl0'
+    obtain ⟨l0, hl0', hp1, _⟩ := hst2 hs2
+    obtain ⟨l1, hl1', hp1', _⟩ := hst2' hs2
+    simp only [Option.some.injEq] at hl0' hl1'
+    subst hl0'; subst hl1'
     have hdi := hst1 hsne
-    -- the loaded array: its fields are the members of m'
-    have hwf' := load_accepted_wf axesOk m' y (fun c hc => by
-      have : lookup m' "coords" = none := by
-        rw [hsame "coords" (by decide) (by rcases hk with h | h | h <;> subst h <;> decide)]; simp [lookup]
-      rw [this] at hc; exact absurd hc (by simp)) hload
-    obtain ⟨b, hb, hbc, hall, hff⟩ := load_no_defaulting axesOk m' y hload
-    cases y with
-    | coo s' c' d' f' =>
-      obtain ⟨_, _, _, c0, hc0, _⟩ := hff
-      have : lookup m' "coords" = none := by
-        rw [hsame "coords" (by decide) (by rcases hk with h | h | h <;> subst h <;> decide)]; simp [lookup]
-      rw [this] at hc0; exact absurd hc0 (by simp)
-    | gcxs e' s' d' i' p' ca' f' =>
-      obtain ⟨_, hms, hmd, _, hmi, hmp, la, hma, hca'⟩ := hff
-      obtain ⟨_, ⟨hst1', hst2'⟩, _⟩ := hwf'
-      rcases hk with hk | hk | hk <;> subst hk
-      · -- data
-        rw [hsame "shape" (by decide) (by decide)] at hms
-        rw [hsame "indices" (by decide) (by decide)] at hmi
-        simp [lookup] at hms hmi
-        subst hms; subst hmi
-        have := hcount (.vals d) (.vals d') (by simp [lookup]) hmd
-        simp [Payload.count] at this
-        have := hst1' hsne
-        omega
-      · -- indices
-        rw [hsame "shape" (by decide) (by decide)] at hms
-        rw [hsame "data" (by decide) (by decide)] at hmd
-        simp [lookup] at hms hmd
-        subst hms; subst hmd
-        have := hcount (.ints i) (.ints i') (by simp [lookup]) hmi
-        simp [Payload.count] at this
-        have := hst1' hsne
-        omega
-      · -- indptr
-        rw [hsame "shape" (by decide) (by decide)] at hms
-        rw [hsame "compressed_axes" (by decide) (by decide)] at hma
-        simp [lookup] at hms hma
-        subst hms; subst hma
-        have hdec : decodeAxes l = some l := by simp [decodeAxes, hl0]
-        have hna : normAxes s (some l) = some l := by simp [normAxes, hl2]
-        rw [hdec, hna] at hca'
-        subst hca'
-        obtain ⟨l1, hl1', hp1', _, _⟩ := hst2' hs2
-        simp only [Option.some.injEq] at hl1'
-        subst hl1'
-        have := hcount (.ints p) (.ints p') (by simp [lookup]) hmp
-        simp [Payload.count] at this
-        omega
+    have hdi' := hst1' hsne
+    rcases hk with hk | hk | hk <;> subst hk
+    · have := hcount (.vals d) (.vals d') (by simp [lookup]) hmd
+      simp [Payload.count] at this
+      have hii := hi (by decide)
+      subst hii
+      omega
+    · have := hcount (.ints i) (.ints i') (by simp [lookup]) hmi
+      simp [Payload.count] at this
+      have hdd := hd (by decide)
+      subst hdd
+      omega
+    · have := hcount (.ints p) (.ints p') (by simp [lookup]) hmp
+      simp [Payload.count] at this
+      omega
 
-/-- **load_contents_unchecked.** The limit of the validation: the consistency checks are constant-time, so a
-member set whose lengths and end pointers are consistent but whose index *contents* are not (out-of-range
-index, non-monotone `indptr`) is loaded literally (`load_no_defaulting`): the result is well formed in the
-sense of `load_accepted_wf` and nothing more.  (`uncheckedWitness`, Model/Npz.lean: an index far outside the
-2×2 array, `indptr = [0, 3, 2]`; harness/c14.py replays it on the real `load_npz`.) -/
-theorem load_contents_unchecked :
-    load strictlyIncreasing uncheckedWitness = .ok (.gcxs true [2, 2] [5, 7] [9, -4] [0, 3, 2] (some [0]) 0) := by
+/-- **gcxs_content_damage_rejected.** Take the file of any well-formed GCXS array of two or more dimensions and
+alter the *contents* of `indices` so that some index falls outside `[0, product of the uncompressed extents)`, or
+the contents of `indptr` so that it decreases somewhere (lengths and end pointers may stay consistent; no
+assumption on the container): `load_npz` raises.  Before 748e5d3 such a file loaded literally, as an array whose
+stored positions are not positions of the array. -/
+theorem gcxs_content_damage_rejected (axesOk : List Int → Bool) (e : Bool) (s : List Int) (d : List α)
+    (i p l : List Int) (f : α) (hwf : (Arr.gcxs e s d i p (some l) f).WF axesOk)
+    (hex : ¬ Excluded (Arr.gcxs e s d i p (some l) f))
+    (m : Members α) (hs : save (Arr.gcxs e s d i p (some l) f) = .ok m) (m' : Members α) (k : String)
+    (hsame : ∀ k' ∈ vocabulary, k' ≠ k → lookup m' k' = lookup m k')
+    (hbad : (k = "indices" ∧ ∀ v, lookup m' "indices" = some (.ints v) → ¬ InRange v (colsOf s l))
+      ∨ (k = "indptr" ∧ ∀ v, lookup m' "indptr" = some (.ints v) → ¬ v.Pairwise (· ≤ ·))) :
+    ∃ err, load axesOk m' = .error err := by
+  cases hload : load axesOk m' with
+  | error err => exact ⟨err, rfl⟩
+  | ok y =>
+    exfalso
+    have hk : k = "data" ∨ k = "indices" ∨ k = "indptr" := by
+      rcases hbad with ⟨h, _⟩ | ⟨h, _⟩
+      · exact Or.inr (Or.inl h)
+      · exact Or.inr (Or.inr h)
+    obtain ⟨d', i', p', _, _, hmi, hmp, _, _, _, _, _, hst2'⟩ :=
+      gcxs_member_damage_confined axesOk e s d i p l f hwf hex m hs m' k hk hsame y hload
+    obtain ⟨_, _, hl0, _, hl2, _, hl4⟩ := hwf
+    have hs2 : 2 ≤ s.length := wf_axes_two_dims hl0 hl2 hl4
+    obtain ⟨l1, hl1', _, _, _, hmono, hrange⟩ := hst2' hs2
+    simp only [Option.some.injEq] at hl1'
+    subst hl1'
+    rcases hbad with ⟨_, h⟩ | ⟨_, h⟩
+    · exact h i' hmi hrange
+    · exact h p' hmp hmono
+
+/-- **load_row_order_unchecked.** What is STILL trusted after the constructor validates lengths, end pointers,
+monotonicity and index range: the order and the multiplicity of the indices *within a row*.  The member set
+`rowOrderWitness` (Model/Npz.lean: a 2×3 array whose row 0 lists the columns `2, 0, 2` — out of order, one
+twice) passes every check and is loaded literally (`load_no_defaulting`): the result is well formed in the sense
+of `load_accepted_wf`, and that is all the constructor promises.  harness/c14.py replays the witness on the real
+`load_npz`. -/
+theorem load_row_order_unchecked :
+    load strictlyIncreasing rowOrderWitness = .ok (.gcxs true [2, 3] [5, 7, 8, 9] [2, 0, 2, 1] [0, 3, 4] (some [0]) 0) := by
   decide
 
 /-- **load_determined.** Two member maps that agree on the seven names `load_npz` asks for load the same
@@ -466,6 +529,16 @@ example : load strictlyIncreasing ([("coords", .mat ⟨1, 1, [[0]]⟩), ("data",
 example : load strictlyIncreasing ([("data", .vals [5, -7]), ("shape", .ints [2, 3, 2]), ("fill_value", .val 3),
     ("indices", .ints [2, 0]), ("indptr", .ints [0, 1, 1, 2]), ("compressed_axes", .ints [0, 2])] : Members Int)
     = .error .value := by decide
+/-- contents: an index outside the 2×2 array with a non-monotone `indptr` (accepted before 748e5d3), and each defect alone, are rejected -/
+example : load strictlyIncreasing ([("data", .vals [5, 7]), ("shape", .ints [2, 2]), ("fill_value", .val 0),
+    ("indices", .ints [9, -4]), ("indptr", .ints [0, 3, 2]), ("compressed_axes", .ints [0])] : Members Int) = .error .value := by decide
+example : load strictlyIncreasing ([("data", .vals [5, 7]), ("shape", .ints [2, 2]), ("fill_value", .val 0),
+    ("indices", .ints [0, 2]), ("indptr", .ints [0, 1, 2]), ("compressed_axes", .ints [0])] : Members Int) = .error .value := by decide
+example : load strictlyIncreasing ([("data", .vals [5, 7]), ("shape", .ints [2, 2, 1]), ("fill_value", .val 0),
+    ("indices", .ints [0, 1]), ("indptr", .ints [0, 2, 1, 2, 2]), ("compressed_axes", .ints [0, 1])] : Members Int) = .error .value := by decide
+/-- … and a 1-d GCXS member set with an index equal to the extent -/
+example : load strictlyIncreasing ([("data", .vals [5]), ("shape", .ints [4]), ("fill_value", .val 0),
+    ("indices", .ints [4]), ("indptr", .ints []), ("compressed_axes", .ints [])] : Members Int) = .error .value := by decide
 /-- a 0-d COO member set with two values (accepted before the constructor checked every shape) is rejected -/
 example : load strictlyIncreasing ([("coords", .mat ⟨0, 1, []⟩), ("data", .vals [4, 4]), ("shape", .ints []), ("fill_value", .val 0)] : Members Int)
     = .error .value := by decide
